@@ -30,11 +30,13 @@ var c20Stores = map[string]bool{"vaultV1": true, "lockerV1": true, "lendV2": tru
 	"auctionV1": true, "auctionsV2": true, "rewardsV1": true, "liquidityV1": true, "marketV1": true, "assetv1": true, "esmV1": true, "tokenmint": true, "bandoracleV1": true}
 
 type c20Case struct {
-	Kind  string `json:"kind"`
-	V     *vCase `json:"v,omitempty"`
-	L     *lCase `json:"l,omitempty"`
-	Cont  []vOp  `json:"continuation,omitempty"`
-	LCont []lOp  `json:"l_continuation,omitempty"`
+	Kind   string  `json:"kind"`
+	V      *vCase  `json:"v,omitempty"`
+	L      *lCase  `json:"l,omitempty"`
+	Cont   []vOp   `json:"continuation,omitempty"`
+	LCont  []lOp   `json:"l_continuation,omitempty"`
+	Ld     *ldCase `json:"lend,omitempty"`
+	LdCont []ldOp  `json:"lend_continuation,omitempty"`
 }
 
 func c20Diff(t rec.TB, r *rec.Rec, cs *c20Case, a, b dump.State, when string) (hit map[string]bool) {
@@ -96,6 +98,8 @@ var c20Cascade = map[string][]string{
 	"vault-plain": {"C20-F4"},
 	"vault":       {"C20-F3", "C20-F4", "C20-F6"},
 	"vault-liq":   {"C20-F1", "C20-F2", "C20-F3", "C20-F4", "C20-F6"},
+	"lend":        {"C20-F7"},
+	"lend-liq":    {"C20-F1", "C20-F2", "C20-F7"},
 }
 
 func c20AssertContinuation(r *rec.Rec, kind string, hit map[string]bool) bool {
@@ -142,7 +146,7 @@ func TestC20_roundtrip(t *testing.T) {
 	rapid.Check(t, func(rt *rapid.T) {
 		r.Guard(func() {
 			r.Eval()
-			cs := &c20Case{Kind: rapid.SampledFrom([]string{"vault-plain", "vault", "vault-liq", "liquidity", "liquidity"}).Draw(rt, "kind")}
+			cs := &c20Case{Kind: rapid.SampledFrom([]string{"vault-plain", "vault", "vault-liq", "liquidity", "liquidity", "lend", "lend-liq"}).Draw(rt, "kind")}
 			nonEmpty := 0
 			switch cs.Kind {
 			case "vault-plain", "vault", "vault-liq":
@@ -170,6 +174,35 @@ func TestC20_roundtrip(t *testing.T) {
 				for i := 0; i < k; i++ {
 					op := m.genOp(rt, n+i)
 					cs.Cont = append(cs.Cont, op)
+					m.apply(n+i, op)
+					m2.apply(n+i, op)
+					if cmp {
+						c20Continuation(rt, r, cs, m.c, c2, n+i, op.K)
+					}
+				}
+			case "lend", "lend-liq":
+				lc := &ldCase{Cfg: genLdCfg(rt)}
+				if cs.Kind == "lend-liq" {
+					lc.Cfg.Liq = genLdLiq(rt)
+				}
+				cs.Ld = lc
+				m := newLdMachine(rt, r, "C20", lc)
+				n := rapid.IntRange(15, 60).Draw(rt, "nops")
+				for i := 0; i < n; i++ {
+					op := m.genOp(rt, i)
+					lc.Ops = append(lc.Ops, op)
+					m.apply(i, op)
+				}
+				c2, orig, hit := c20Import(rt, r, cs, lc.Cfg.Seed, lc.Cfg.NUsers+1, m.c)
+				cmp := c20AssertContinuation(r, cs.Kind, hit)
+				nonEmpty = len(orig.PerStoreHash())
+				c20Resume(m.c, c2)
+				m2 := m.cloneOn(c2)
+				m.c.TxMode, c2.TxMode = true, true
+				k := rapid.IntRange(5, 25).Draw(rt, "ncont")
+				for i := 0; i < k; i++ {
+					op := m.genOp(rt, n+i)
+					cs.LdCont = append(cs.LdCont, op)
 					m.apply(n+i, op)
 					m2.apply(n+i, op)
 					if cmp {
@@ -271,6 +304,10 @@ func (m *vMachine) cloneOn(c *world.Chain) *vMachine {
 	return n
 }
 
+func (m *ldMachine) cloneOn(c *world.Chain) *ldMachine {
+	return &ldMachine{t: m.t, r: m.r, prop: m.prop, c: c, cs: m.cs, k: c.App.LendKeeper, app: m.app, pools: m.pools, pairs: m.pairs, ok: map[string]int{}, unsafeFor: map[uint64]int{}}
+}
+
 func (m *lMachine) cloneOn(c *world.Chain) *lMachine {
 	n := &lMachine{t: m.t, r: m.r, prop: m.prop, c: c, cs: m.cs, k: c.App.LiquidityKeeper, pools: append([]lPoolRef{}, m.pools...), feeExp: map[string]sdk.Int{}, mmInit: map[string]sdk.Int{}, ok: map[string]int{}, nextTr: m.nextTr}
 	for _, o := range m.orders {
@@ -303,6 +340,23 @@ func init() {
 				m2.apply(len(cs.V.Ops)+i, op)
 				if cmp {
 					c20Continuation(t, r, &cs, m.c, c2, len(cs.V.Ops)+i, op.K)
+				}
+			}
+		case "lend", "lend-liq":
+			m := newLdMachine(t, r, "C20", cs.Ld)
+			for i, op := range cs.Ld.Ops {
+				m.apply(i, op)
+			}
+			c2, _, hit := c20Import(t, r, &cs, cs.Ld.Cfg.Seed, cs.Ld.Cfg.NUsers+1, m.c)
+			cmp := c20AssertContinuation(r, cs.Kind, hit)
+			c20Resume(m.c, c2)
+			m2 := m.cloneOn(c2)
+			m.c.TxMode, c2.TxMode = true, true
+			for i, op := range cs.LdCont {
+				m.apply(len(cs.Ld.Ops)+i, op)
+				m2.apply(len(cs.Ld.Ops)+i, op)
+				if cmp {
+					c20Continuation(t, r, &cs, m.c, c2, len(cs.Ld.Ops)+i, op.K)
 				}
 			}
 		default:
